@@ -49,6 +49,19 @@ package otlp
 //@   pure
 //@   note frame only (ASSUMED): builds a new map from the attribute list (regexp and protobuf getters are external); writes nothing the caller can see
 //@ end
+// C16 (attribute values of every kind are stored as sent): an integer
+// attribute of a metric data point becomes the decimal text of its own 64 bits
+// (never through a float: integers beyond 2^53 would be stored as a different
+// number and distinct series would collapse), a string attribute is stored as it
+// is.  Second view of extractAttributes (the primary contract is its frame).
+//@ func extractAttributes @values
+//@   props C16
+//@   assumecalleerequires
+//@   site mapupdate attrMap[key] #1:
+//@     assert [a-string-attribute-is-stored-as-it-is] value == v.StringValue
+//@   site mapupdate attrMap[key] #3:
+//@     assert [an-integer-attribute-is-stored-as-the-decimal-text-of-its-own-64-bits] value == uf("decText", string, v.IntValue)
+//@ end
 //@ func processMetric
 //@   props C16
 //@   assumecalleerequires
